@@ -29,6 +29,7 @@ FUNCTIONS = ["codebasin/config.py:ArgumentParser.__init__", "codebasin/config.py
              "codebasin/config.py:_load_compilers", "codebasin/config.py:load_database", "codebasin/finder.py:find",
              "codebasin/compilers/{gnu,clang,intel,nvidia}.toml"]
 STUBS = ["config._compilers replaced by the generated table (alias/, compose/); config.log -> recorder",
+         "user-config/: .cbi/config served from a MemFS (config.os façade, config.open)",
          "attr/: vp.memfs mounted, CompilationDatabase.from_file -> from_json"]
 ASSUMPTIONS = [
     "semantics of passes as implemented by design: configurations = default + the default passes of pass-selecting rules whose "
@@ -486,6 +487,128 @@ def h_builtin(b0: bool, b1: bool, b2: bool, b3: bool, c0: bool, c1: bool, c2: bo
 
 
 # --------------------------------------------------------------------------
+# a user configuration (.cbi/config) extends the built-in one
+
+USER_FRAGS = [
+    '[compiler.mycc]\noptions = ["-DMYCC"]\n',
+    '[compiler.gcc]\noptions = ["-DUSER_GCC", "-I", "/user/inc"]\n',
+    '[[compiler.gcc.parser]]\nflags = ["-fuser"]\naction = "append_const"\ndest = "modes"\nconst = "user"\n'
+    '[[compiler.gcc.modes]]\nname = "user"\ndefines = ["USERMODE"]\n',
+    '[compiler.c99]\nalias_of = "gcc"\n',
+    '[compiler."g++"]\noptions = ["-DGXX"]\n',
+    '[[compiler.gcc.modes]]\nname = "openmp"\ndefines = ["_OPENMP=201511"]\n',
+]
+PROBES = ["gcc", "g++", "c99", "mycc", "clang"]
+PROBE_FLAGS = [[], ["-fopenmp"], ["-fuser", "-DX"], ["-fopenmp", "-fuser"]]
+
+
+def _merge_reference(builtin, bits):
+    """independent model of 'the user configuration extends the built-in one'"""
+    import tomllib
+
+    table = copy.deepcopy(builtin)
+    # TOML does not allow a table to be opened twice: fragments of one compiler are merged textually per compiler
+    text = _user_text(bits)
+    user = tomllib.loads(text).get("compiler", {}) if text else {}
+    for name, d in user.items():
+        if name not in table:
+            table[name] = copy.deepcopy(d)
+            continue
+        if "alias_of" in d:
+            table[name] = copy.deepcopy(d)
+            continue
+        cur = table[name]
+        cur.pop("alias_of", None)
+        cur.setdefault("options", [])
+        cur["options"] = list(cur["options"]) + list(d.get("options", []))
+        cur["parser"] = list(cur.get("parser", [])) + list(d.get("parser", []))
+        for key in ("modes", "passes"):
+            have = {m["name"]: m for m in cur.get(key, [])}
+            for m in d.get(key, []):
+                have[m["name"]] = m
+            cur[key] = list(have.values())
+    return table
+
+
+def _user_text(bits):
+    parts = []
+    gcc = []
+    if bits[1]:
+        gcc.append('options = ["-DUSER_GCC", "-I", "/user/inc"]\n')
+    tail = []
+    if bits[2]:
+        tail.append('[[compiler.gcc.parser]]\nflags = ["-fuser"]\naction = "append_const"\ndest = "modes"\nconst = "user"\n')
+        tail.append('[[compiler.gcc.modes]]\nname = "user"\ndefines = ["USERMODE"]\n')
+    if bits[5]:
+        tail.append('[[compiler.gcc.modes]]\nname = "openmp"\ndefines = ["_OPENMP=201511"]\n')
+    if gcc or tail:
+        parts.append("[compiler.gcc]\n" + "".join(gcc) + "".join(tail))
+    if bits[0]:
+        parts.append(USER_FRAGS[0])
+    if bits[3]:
+        parts.append(USER_FRAGS[3])
+    if bits[4]:
+        parts.append(USER_FRAGS[4])
+    return "\n".join(parts)
+
+
+def h_user(u0: bool, u1: bool, u2: bool, u3: bool, u4: bool, u5: bool, f: int) -> bool:
+    """
+    pre: f == P["f"]
+    post: _
+    """
+    import codebasin.config as config
+
+    bits = [bool(u0), bool(u1), bool(u2), bool(u3), bool(u4), bool(u5)]
+    fi = None
+    for k in range(4):
+        if f == k:
+            fi = k
+    STATS["compared"] += 1
+    if P.get("_twin"):
+        return False
+    why = None
+    with _untraced():
+        name = P["compiler"]
+        argv = PROBE_FLAGS[fi] + ["x.c"]
+        fs = memfs.MemFS("/r")
+        text = _user_text(bits)
+        if text:
+            fs.add("/r/.cbi/config", text)
+        merged = _merge_reference(_load_builtin(), bits)
+        rec = memfs.Recorder()
+        saved = (config.log, config.os, getattr(config, "open", None), config._compilers)
+        config.log = rec
+        config.os = memfs.OSFacade(fs)
+        config.open = fs.open
+        try:
+            config._compilers = None
+            cfgs = config.ArgumentParser("/usr/bin/" + name).parse_args(list(argv))
+            if name in merged:
+                target = name
+                hops = 0
+                while merged[target].get("alias_of") and hops < 5:
+                    target = merged[target]["alias_of"]
+                    hops += 1
+                exp = ref_parse(merged[target], argv)
+            else:
+                exp = ref_parse({}, argv)
+            why = _compare(cfgs, exp)
+        except Exception as e:
+            why = "exception " + repr(e)
+        finally:
+            config.log, config.os = saved[0], saved[1]
+            if saved[2] is None:
+                del config.open
+            else:
+                config.open = saved[2]
+            config._compilers = None
+    if P.get("_replay"):
+        LAST.update(compiler=P["compiler"], user_config=_user_text(bits), argv=PROBE_FLAGS[fi], why=why)
+    return why is None
+
+
+# --------------------------------------------------------------------------
 # attribution over passes
 
 
@@ -582,6 +705,10 @@ def obligations(tier, known):
                       group="builtin"))
         obs.append(Ob(id="builtin-seq/" + name, kind="ch", module=__name__, func="h_builtin", params=dict(compiler=name, seq=True),
                       timeout=300, group="builtin"))
+    for name in PROBES:
+        for fl in range(4):
+            obs.append(Ob(id="user-config/%s/flags%d" % (name, fl), kind="ch", module=__name__, func="h_user",
+                          params=dict(compiler=name, f=fl), timeout=400, group="user"))
     for sc in ATTR:
         obs.append(Ob(id="attr/" + sc, kind="ch", module=__name__, func="h_attr", params=dict(scenario=sc), timeout=200,
                       group="attr"))
@@ -593,5 +720,5 @@ CLAIM = ("Every functional alias graph within the bound resolves (or is reported
          "the configurations produced by the real parse_args equal an independent reference of the composition rules, and implicit "
          "options behave exactly like appended ones - all decided by exhausting the symbolic bits.")
 LEVEL_NOTE = ("Trusted: CrossHair/z3, the reference composition model in this file, tomllib. Bounded: <= 5 compilers per alias graph, "
-              "one generated definition, documented flags of the shipped definitions; user-configuration merging (.cbi/config) is "
-              "exercised only through _Compiler.from_toml, the merge loop itself is outside the claim.")
+              "one generated definition, documented flags of the shipped definitions; user-configuration merging is checked for "
+              "6 fragment kinds (new compiler, extra options, extra rule+mode, new alias, alias turned into a compiler, mode redefined).")
